@@ -215,9 +215,13 @@ func glob(path string, rx *regexp.Regexp, fn func(string)) error {
 func unquote(s string) (string, bool) {
 	var b strings.Builder
 	var esc bool
-	for _, r := range s {
+	for i, r := range s {
 		switch r {
 		case utf8.RuneError:
+			if _, w := utf8.DecodeRuneInString(s[i:]); w != 1 {
+				// U+FFFD itself is a character like any other
+				break
+			}
 			return "", false
 		case '\\':
 			if !esc {
